@@ -49,21 +49,10 @@ Print Assumptions C13_split_order_irrelevant.
 (* What an "ok" verdict of the correspondence comparator certifies: after EVERY operation of
    the recorded history, the accumulator it touched satisfies the batch invariant for exactly
    the values fed to it and all nine observed statistics passed the comparison ... *)
-Theorem C13_check_ok_sound : forall k ops tag,
-  run_cmp (repeat s_init k) ops 0%Z 0%Z = (tag, None) -> forall n, step_ok k ops n.
+Theorem C13_check_ok_sound : forall fr k ops tag,
+  run_cmp fr (repeat s_init k) ops 0%Z 0%Z = (tag, None) -> forall n, step_ok fr k ops n.
 Proof. exact check_ok_sound. Qed.
 Print Assumptions C13_check_ok_sound.
-
-(* ... which for instance means: the observed Count is the number of values, and the observed
-   Mean is a finite float within tol_mean of the batch mean. *)
-Theorem C13_compare_count_sound : forall s o xs, Inv s xs -> compare s o = None -> o_count o = Z.of_nat (length xs).
-Proof. exact compare_count_sound. Qed.
-Print Assumptions C13_compare_count_sound.
-
-Theorem C13_compare_mean_sound : forall s o xs, Inv s xs -> xs <> [] -> compare s o = None ->
-  exists m, o_mean o = XFin m /\ Qabs (m - mean_def xs) <= tol_mean s.
-Proof. exact compare_mean_sound. Qed.
-Print Assumptions C13_compare_mean_sound.
 
 (* Non-vacuity: a three-accumulator history with an empty part on each side of a Combine. *)
 Example C13_history_example :
